@@ -4,6 +4,7 @@
 #include "Cello.h"
 #include "inputs.h"
 #include <stdio.h>
+#include <string.h>
 int main(int argc, char** argv) {
   var f = new(File, $S("/tmp/cello_c20_replay.txt"), $S("w"));
   sclose(f);
@@ -14,6 +15,17 @@ int main(int argc, char** argv) {
   caught = 0;
   try { swrite(f, "x", 1); } catch (e in IOError) { caught = 1; }
   if (!caught) { printf("REPRODUCED: swrite on a closed File did not raise IOError\n"); return 1; }
+  /* reopening an open File closes (flushes) the old stream before the new one is opened */
+  { const char* path = "/tmp/cello_c20_replay.txt"; char big[33]; memset(big, 'A', 32); big[32] = 0; char buf[128]; memset(buf, 0, sizeof buf);
+    var g = $(File, NULL); sopen(g, $S((char*)path), $S("wb")); swrite(g, big, 32);
+    sopen(g, $S((char*)path), $S("wb")); swrite(g, "BBBB", 4); sclose(g);
+    FILE* r = fopen(path, "rb"); size_t n = r ? fread(buf, 1, sizeof buf - 1, r) : 0; if (r) fclose(r);
+    if (n != 4 || memcmp(buf, "BBBB", 4) != 0) { printf("REPRODUCED: reopening an open File for writing: the file holds %d bytes \"%s\" instead of the 4 bytes written through the new stream (old stream closed after the new one was opened)\n", (int)n, buf); return 1; }
+    sopen(g, $S((char*)path), $S("rb")); int threw = 0;
+    try { sopen(g, $S("/nonexistent-dir-c20/x"), $S("rb")); } catch (e in IOError) { threw = 1; }
+    int stillopen = 1; try { char c; sread(g, &c, 1); } catch (e in IOError) { stillopen = 0; }
+    if (!threw || stillopen) { printf("REPRODUCED: after a failed reopen the File still reads through the previous stream (raised=%d)\n", threw); return 1; }
+  }
   remove("/tmp/cello_c20_replay.txt");
   return 0;
 }
